@@ -3,7 +3,7 @@
     Scalars are integers reduced modulo the parameter q; groups are abstract Z_q-modules (module_laws). *)
 From SL Require Import Lib.Base Model.Matrix Model.Poly Model.PolyDlog Model.PolyBirkhoff.
 From SL Require Import Proofs.PolyFact Proofs.PolySum Proofs.PolyDeriv Proofs.PolyGroup Proofs.PolyDlog
-  Proofs.PolyBirkhoff Proofs.PolyLagrange.
+  Proofs.PolyBirkhoff Proofs.PolyLagrange Proofs.PolyC20.
 Local Open Scope Z_scope.
 
 (** The 21-entry u64 table computed by the model of small_factorial (with the u64 wrap written in) equals
@@ -249,6 +249,62 @@ Check birkhoff_is_lagrange :
        (nth j b 0 * lag_den params j) mod q = lag_num params j mod q /\
        (forall lam : Z, (lam * lag_den params j) mod q = lag_num params j mod q -> nth j b 0 mod q = lam mod q)).
 Print Assumptions birkhoff_is_lagrange.
+
+(** Headline, composed with C20 (inverse_correct_list): for prime q and a Birkhoff matrix with non-zero determinant
+    (as computed by the verified bareiss), birkhoff_coeffs returns b with sum_i b_i * f^(r_i)(x_i) = f(0) (mod q). *)
+Theorem birkhoff_interpolates_nonsingular :
+  forall q : Z, Znumtheory.prime q ->
+  forall (params : list (Z * nat)) (f : list Z), params <> [] ->
+  Z.of_nat (length params) <= 2 ^ 64 -> length f = length params ->
+  bareiss q (birkhoff_matrix q params) (length params) <> Val 0 ->
+  exists b : list Z,
+    birkhoff_coeffs q params = Val b /\
+    bigsum (length params)
+      (fun i : nat => nth i b 0 * derivative_at q f (snd (nth i params (0, 0%nat))) (fst (nth i params (0, 0%nat))))
+    mod q = evaluate_at q f 0.
+Proof. exact PolyC20.birkhoff_interpolates_nonsingular. Qed.
+Check birkhoff_interpolates_nonsingular :
+  forall q : Z, Znumtheory.prime q ->
+  forall (params : list (Z * nat)) (f : list Z), params <> [] ->
+  Z.of_nat (length params) <= 2 ^ 64 -> length f = length params ->
+  bareiss q (birkhoff_matrix q params) (length params) <> Val 0 ->
+  exists b : list Z,
+    birkhoff_coeffs q params = Val b /\
+    bigsum (length params)
+      (fun i : nat => nth i b 0 * derivative_at q f (snd (nth i params (0, 0%nat))) (fst (nth i params (0, 0%nat))))
+    mod q = evaluate_at q f 0.
+Print Assumptions birkhoff_interpolates_nonsingular.
+
+(** Lagrange reduction composed with C20: all orders zero, pairwise distinct nodes, non-zero determinant =>
+    b_j is the unique solution of b_j * prod_{m<>j}(x_m - x_j) = prod_{m<>j} x_m (mod q). *)
+Theorem birkhoff_is_lagrange_nonsingular :
+  forall q : Z, Znumtheory.prime q ->
+  forall (params : list (Z * nat)), params <> [] ->
+  Z.of_nat (length params) <= 2 ^ 64 ->
+  (forall i : nat, (i < length params)%nat -> snd (nth i params (0%Z, 0%nat)) = 0%nat) ->
+  (forall i j : nat, (i < length params)%nat -> (j < length params)%nat -> i <> j ->
+     fst (nth i params (0, 0%nat)) mod q <> fst (nth j params (0, 0%nat)) mod q) ->
+  bareiss q (birkhoff_matrix q params) (length params) <> Val 0 ->
+  exists b : list Z,
+    birkhoff_coeffs q params = Val b /\
+    (forall j : nat, (j < length params)%nat ->
+       (nth j b 0 * lag_den params j) mod q = lag_num params j mod q /\
+       (forall lam : Z, (lam * lag_den params j) mod q = lag_num params j mod q -> nth j b 0 mod q = lam mod q)).
+Proof. exact PolyC20.birkhoff_is_lagrange_nonsingular. Qed.
+Check birkhoff_is_lagrange_nonsingular :
+  forall q : Z, Znumtheory.prime q ->
+  forall (params : list (Z * nat)), params <> [] ->
+  Z.of_nat (length params) <= 2 ^ 64 ->
+  (forall i : nat, (i < length params)%nat -> snd (nth i params (0%Z, 0%nat)) = 0%nat) ->
+  (forall i j : nat, (i < length params)%nat -> (j < length params)%nat -> i <> j ->
+     fst (nth i params (0, 0%nat)) mod q <> fst (nth j params (0, 0%nat)) mod q) ->
+  bareiss q (birkhoff_matrix q params) (length params) <> Val 0 ->
+  exists b : list Z,
+    birkhoff_coeffs q params = Val b /\
+    (forall j : nat, (j < length params)%nat ->
+       (nth j b 0 * lag_den params j) mod q = lag_num params j mod q /\
+       (forall lam : Z, (lam * lag_den params j) mod q = lag_num params j mod q -> nth j b 0 mod q = lam mod q)).
+Print Assumptions birkhoff_is_lagrange_nonsingular.
 
 (** Feldman check: for a non-zero share v, feldman_verify on the commitment of f accepts exactly when v = f(x). *)
 Theorem feldman_iff :
